@@ -1,6 +1,7 @@
 package props
 
 import (
+	"go/constant"
 	"fmt"
 	"go/ast"
 	"go/token"
@@ -368,6 +369,7 @@ func checkC18(c *Ctx) {
 	checkIndexOrigin(c, "C18.R7.index-origin", gen, "WithAutoXOrder", 2)
 	checkPlatformSuffixes(c, "C18.R6.file-suffixes", gen)
 	checkExclusiveMarkers(c, ev)
+	checkDecimalExact(c, "C18.R2.decimal-exact", gen)
 }
 
 // regexpSourceOf reconstructs the regexp source of a tagger construction.
@@ -941,4 +943,72 @@ func checkDocValuesVerbatim(c *Ctx, rule string, ev *tmpl.Evaluator) {
 		c.Check(len(bad) == 0, rule, l.Tree.Asset+" › "+def+" › values are written as they are", l.Tree.File, "only line-comment padding is applied",
 			fmt.Sprintf("the doc template rewrites the value it prints (%v): the scanner reads the rewritten text back, so a pattern such as `^/mnt/.*/$` returns as `^/mnt/.[*]/$`", bad))
 	}
+}
+
+// checkDecimalExact: the `decimal` template function writes the bounds (minimum, maximum, multipleOf) into the
+// doc comments the scanner reads back. Every non-empty result is strconv.FormatFloat(*v, 'f', -1, 64): the
+// shortest decimal that parses back to the same float64. A detour through an integer type overflows from 2^63
+// (the uint64 maximum is a bound the generator's own formats produce) and a %g/%v rendering writes exponents
+// the scanner's patterns do not match.
+func checkDecimalExact(c *Ctx, rule string, gen *packages.Package) {
+	c.Rule(rule, "every non-empty result of the template function `decimal` is strconv.FormatFloat(*v, 'f', -1, 64), and the function converts no float to an integer type", 1)
+	info := gen.TypesInfo
+	found := false
+	for _, fd := range load.AllFuncs(gen) {
+		if fd.Body == nil || fd.Recv != nil || fd.Name.Name != "decimal" {
+			continue
+		}
+		found = true
+		bad := ""
+		ast.Inspect(fd.Body, func(m ast.Node) bool {
+			switch x := m.(type) {
+			case *ast.CallExpr:
+				if tv, ok := info.Types[x.Fun]; ok && tv.IsType() && len(x.Args) == 1 {
+					if to, ok := tv.Type.Underlying().(*types.Basic); ok && to.Info()&types.IsInteger != 0 {
+						if from, ok := info.TypeOf(x.Args[0]).Underlying().(*types.Basic); ok && from.Info()&types.IsFloat != 0 {
+							bad = "`" + goan.ExprString(x) + "` converts the bound to " + to.Name() + ": from 2^63 on (maximum: 18446744073709551615, the uint64 range) the conversion overflows and the comment carries another number than the schema"
+						}
+					}
+				}
+			case *ast.ReturnStmt:
+				if len(x.Results) != 1 {
+					return true
+				}
+				r := goan.ResolveLocal(info, fd.Body, x.Results[0])
+				if s, ok := goan.StringVal(info, r); ok && s == "" {
+					return true
+				}
+				call, ok := ast.Unparen(r).(*ast.CallExpr)
+				fn := (*types.Func)(nil)
+				if ok {
+					fn = goan.Callee(info, call)
+				}
+				if fn == nil || fn.FullName() != "strconv.FormatFloat" || len(call.Args) != 4 {
+					if bad == "" {
+						bad = "`return " + goan.ExprString(x.Results[0]) + "` is not strconv.FormatFloat(*v, 'f', -1, 64)"
+					}
+					return true
+				}
+				f, _ := constIntOf(info, call.Args[1])
+				p, _ := constIntOf(info, call.Args[2])
+				b, _ := constIntOf(info, call.Args[3])
+				if f != 'f' || p != -1 || b != 64 {
+					bad = "`" + goan.ExprString(call) + "`: only ('f', -1, 64) writes the shortest exponent-free decimal that parses back to the same value"
+				}
+			}
+			return true
+		})
+		c.Check(bad == "", rule, "generator.decimal › exact rendering", c.posOf(gen, fd.Pos()), "strconv.FormatFloat(*v, 'f', -1, 64)", bad)
+	}
+	if !found {
+		c.Anchor(rule, "generator.decimal", "not found")
+	}
+}
+
+func constIntOf(info *types.Info, e ast.Expr) (int64, bool) {
+	tv, ok := info.Types[e]
+	if !ok || tv.Value == nil {
+		return 0, false
+	}
+	return constant.Int64Val(constant.ToInt(tv.Value))
 }
